@@ -263,3 +263,7 @@ func AssumeHashInjective() {}
 // clock natively.  Harnesses derive "a day ago" from it instead of from input bytes, so that symbolic and
 // native runs stay aligned.
 func NowUnix() int64 { return time.Now().Unix() }
+
+// Context names the case a generated sweep is in (type.method); it becomes part of the fingerprint of a panic
+// found there, so that two methods failing at the same site are two findings.  Natively a no-op.
+func Context(label string) {}
